@@ -34,17 +34,11 @@ COMPILED_BRANCHES = {
 }
 
 # unordered iterations that are order-insensitive, with the reason (one named construct per line)
-BENIGN_UNORDERED = {
-    "Manager.unregister#for-over:self.tasks[$p0].dependencies": "removals from multisets commute",
-    "Manager.unregister#for-over:self.tasks[$p0].targets": "removals from multisets commute",
-    "Manager.register#for-over:$p0.dependencies": "adds to rdeps/deptasks keyed by the dependency itself: one insertion per key, "
-                                                    "order of *different* keys in a dict is never iterated by the scheduler",
-    "ExprTask.info#for-over:self.expr._get_dependencies()": "diagnostic printout only",
-    "MutableRef._info2#for-over:∈self._manager.tartasks[self].expr._get_dependencies()": "diagnostic printout only",
-    "Manager.plot_deps#for-over:∈self.find_tasks({$p0 | list(self.rdeps)}).targets": "plot only",
-    "Manager.plot_deps#for-over:∈self.find_tasks({$p0 | list(self.rdeps)}).dependencies": "plot only",
-    "Manager.plot_tasks#for-over:∈self.find_tasks({$p0 | list(self.rdeps)}).dependencies": "plot only",
-}
+# functions whose output is for the eye only (printing / plotting): the order of their lines is not a result of the program of
+# manager operations the property speaks about.  Exempt by name, whatever their bodies look like.
+DIAGNOSTIC_FUNCTIONS = {"info": "diagnostic printout", "_info": "diagnostic printout", "_info2": "diagnostic printout",
+                        "plot_deps": "plot only", "plot_tasks": "plot only"}
+INDEX_MULTISETS = ("rdeps", "rtasks", "deptasks", "tartasks")
 
 
 EXACT_TYPES = {"tuple", "dict", "list", "set", "frozenset", "int", "float", "str", "bytes", "bool", "complex"}
@@ -422,9 +416,10 @@ def _unordered(col, rule="C20.R5"):
         if not any(isinstance(n, (ast.For, ast.AsyncFor)) for n in A.walk(fn)):
             continue
         q = f"{c.name}.{fn.name}" if c else fn.name
-        if fn.name.startswith("_") and not fn.name.startswith("__") and fn.name not in ("_dfs",) and any(
-                isinstance(x, (ast.Yield, ast.YieldFrom)) for x in A.walk(fn)):
-            continue        # a private generator helper: its loops are judged in the callers that consume it (dissolved there)
+        if fn.name in DIAGNOSTIC_FUNCTIONS:
+            continue
+        if fn.name.startswith("_") and not fn.name.startswith("__") and fn.name not in ("_dfs",):
+            continue        # a private helper: its loops are judged in the callers it is inlined into (or consumed by, for generators)
         try:
             sx = sctx(repo, c.name if c else None, fn.name, m.name.split(".", 1)[1] if c is None else None)
         except (AnalysisError, NotImplementedError):
@@ -441,21 +436,33 @@ def _unordered(col, rule="C20.R5"):
             n_loops += 1
             tb = [x.id for x in cfg.nodes.values() if x.kind == "T" and x.of == n.id][0]
             body = cfg.reachable(tb, avoid=[n.id])
-            sinks = []
+            sinks, multiset, into = [], 0, set()
             for ev in sx.events:
                 if ev.nid in body or ev.nid == tb:
                     if ev.kind == "call" and ev.term[1][:1] == ("attr",) and ev.term[1][2] in ORDER_SINKS:
+                        recv = ev.term[1][1]
+                        # an entry of one of the manager's reference-counted multisets: `append`/`extend` there count occurrences.  The only
+                        # insertion order the scheduler ever iterates is that of the successors rtasks[t] of one task: it is disturbed when
+                        # *different* values, chosen by the set iteration, are appended there
+                        if recv[:1] == ("sub",) and recv[1][:1] == ("attr",) and recv[1][2] in INDEX_MULTISETS:
+                            varies = any(x == ("elem", it) for a_ in ev.term[2] for x in S.subterms(a_))
+                            if recv[1][2] != "rtasks" or not varies:
+                                multiset += 1
+                                continue
+                            into.add(recv[1][2])
                         sinks.append(S.show(ev.term)[:50])
                     elif ev.kind == "yield":
                         sinks.append("yield")
             key = f"{q}#for-over:{S.show(it, False)}"
             if not sinks:
-                col.ok(rule, key, sx.loc(n.id), "iteration over a set whose order reaches no order-sensitive sink", "")
+                col.ok(rule, key, sx.loc(n.id), "iteration over a set whose order reaches no order-sensitive sink"
+                       + (f" ({multiset} additions to reference-counted multisets, which commute)" if multiset else ""), "")
                 continue
-            benign = BENIGN_UNORDERED.get(key)
-            col.add(rule, key, benign is not None, sx.loc(n.id),
-                    "an iteration over a set (hash-seed dependent order) does not feed an order-sensitive sink, unless benign for a stated reason",
-                    benign or f"order reaches: {sinks}")
+            if into:
+                key = f"{q}#set-order-into:{','.join(sorted(into))}"
+            col.add(rule, key, False, sx.loc(n.id),
+                    "an iteration over a set (hash-seed dependent order) does not feed an order-sensitive sink",
+                    f"order reaches: {sinks}")
     # set passed as the start collection of the DFS
     sx = sctx(repo, "Manager", "find_taskids", public=True, keep=c01.ANCHORS)
     for r in sx.of_kind("return"):
